@@ -201,7 +201,6 @@ for n, sym, kw in [
     ("twin_async_noparent", "a:u8 (shape: async fn awaiting a once-pending future)", dict(tier="thorough", mem_gb=30, cap_s=2400)),
     ("twin_names_sync", "a:u8, b:u8 (names and span counts of the sync shapes; recording stubs for the two entry points)", {}),
     ("twin_names_async_enter_on_poll", "a:u8 (name and one local span per poll for async + enter_on_poll)", {}),
-    ("twin_names_async_in_span", "a:u8 (name and one span per call for an async fn)", dict(tier="thorough", mem_gb=30, cap_s=2400)),
     ("twin_async_enter_on_poll_noparent", "a:u8 (shape: async fn + enter_on_poll)", {}),
 ]:
     H("harness-crate", "twins", n, ["C15"], sym=sym, bound="6-shape corpus of annotated functions with hand-written twins; all argument values",
